@@ -790,6 +790,18 @@ impl Session {
                 }
             }
         }
+        if let Some(want) = e["cut"].as_array() {
+            let mut got: Vec<J> = t.log.cut.iter().map(|(n, o, w)| json!({"n": n, "old": o, "new": w})).collect();
+            let mut want = want.clone();
+            let key = |j: &J| j.to_string();
+            got.sort_by_key(key);
+            got.dedup();
+            want.sort_by_key(key);
+            want.dedup();
+            if got != want {
+                out.push(Mismatch { prop: "C06", step, what: format!("cutoff consultations {got:?} expected {want:?}") });
+            }
+        }
         if let Some(want) = e["memo"].as_array() {
             let got: Vec<J> = t.log.memo.iter().map(|(m, k)| json!({"m": m, "key": k})).collect();
             if &got != want {
@@ -804,8 +816,9 @@ impl Session {
         }
         if let Some(st) = e["stable"].as_bool() {
             if let Some(s) = &self.state {
-                if s.is_stable() != st {
-                    out.push(Mismatch { prop: "C08", step, what: format!("is_stable() = {} expected {st}", s.is_stable()) });
+                // only the promised direction: pending propagation => not stable
+                if s.is_stable() && !st {
+                    out.push(Mismatch { prop: "C08", step, what: "is_stable() is true although propagation is pending".to_string() });
                 }
             }
         }
